@@ -311,3 +311,59 @@ Proof.
   - left. injection H as <- <- <-. repeat split; congruence.
   - right. exact H.
 Qed.
+
+(* ------------------------------------------------------------------ the flows as wholes (any tables) *)
+
+Lemma flow_exposure_complete : forall T ep req fs fs' rep,
+  flow_exposure T ep req fs = (fs', rep, None) ->
+  forall r b f n, In (r, b, f, n) rep <-> r = 0 /\ In (b, f) (items req) /\ n = render_new b None f.
+Proof.
+  intros T ep req fs fs' rep H r b f n. apply save_new_complete in H. subst rep. simpl.
+  apply in_new_entries.
+Qed.
+
+Lemma flow_dask_complete : forall T ep req nruns fs fs' rep,
+  flow_dask T ep req nruns fs = (fs', rep, None) ->
+  forall r b f n, In (r, b, f, n) rep <->
+    r < nruns /\ In (b, f) (items req) /\ n = render_new b (Some r) f.
+Proof.
+  intros T ep req nruns fs fs' rep H r b f n. apply flow_dask_cases in H.
+  destruct H as [(_ & _ & X)|H]; [congruence|].
+  apply flow_dask_from_complete in H. subst rep. simpl.
+  rewrite in_flat_map. split.
+  - intros [x [Hx Hin]]. apply in_seq in Hx. apply in_new_entries in Hin.
+    destruct Hin as (-> & Hin & ->). repeat split; auto; lia.
+  - intros (Hr & Hin & ->). exists r. split; [apply in_seq; lia | now apply in_new_entries].
+Qed.
+
+Lemma flow_exposure_preserves : forall T, safe_new T = true ->
+  forall ep req fs fs' rep e, flow_exposure T ep req fs = (fs', rep, e) ->
+  forall f x, lookup f fs = Some x -> lookup f fs' = Some x.
+Proof. intros T S ep req fs fs' rep e H. exact (save_new_preserves _ S _ _ _ _ _ _ _ _ _ H). Qed.
+
+Lemma flow_dask_preserves : forall T, safe_new T = true ->
+  forall ep req n fs fs' rep e, flow_dask T ep req n fs = (fs', rep, e) ->
+  forall f x, lookup f fs = Some x -> lookup f fs' = Some x.
+Proof.
+  intros T S ep req n fs fs' rep e H. apply flow_dask_cases in H. destruct H as [(-> & _ & _)|H]; [auto|].
+  exact (flow_dask_from_preserves _ S _ _ _ _ _ _ _ _ _ H).
+Qed.
+
+Lemma flow_exposure_attributed : forall T ep req fs fs' rep e,
+  fresh fs -> flow_exposure T ep req fs = (fs', rep, e) -> attributed ep rep fs'.
+Proof.
+  intros T ep req fs fs' rep e F H.
+  apply (save_new_attributed ep T (items req) None fs [] fs' rep e); auto.
+  - now apply fresh_good.
+  - intros r b f n [].
+Qed.
+
+Lemma flow_dask_attributed : forall T ep req n fs fs' rep e,
+  fresh fs -> flow_dask T ep req n fs = (fs', rep, e) -> attributed ep rep fs'.
+Proof.
+  intros T ep req n fs fs' rep e F H. apply flow_dask_cases in H.
+  destruct H as [(_ & -> & _)|H]; [intros r b f m []|].
+  apply (flow_dask_from_attributed ep T req n 0 fs [] fs' rep e); auto.
+  - now apply fresh_good.
+  - intros r b f m [].
+Qed.
